@@ -5,15 +5,50 @@ META = {
     'engine': 'lean-D',
     'technique': 'Lean 4 refinement proof of a hand model of fibre.c against an abstract scheduler specification; the returned wake-up time is an output of the refinement theorem; '
                  'model and specification tied to the real code by differential runs',
-    'level_text': "For every in-scope history the value returned by the model's fibre_scheduler_next(T) is w32(V) with V given by the property's formula on the state at return: V = T if the dispatched fibre yielded or the run queue or the accepted atomic requests are non-empty, else the earliest pending due time (proved to be a pending due time, minimal, and after T), else T + 0x7fffffff; V <= D for every pending timeout, T <= V <= T+0x7fffffff and the 32-bit value minus T reads as V - T (never_oversleeps). Sequential histories only: interrupt handlers placed inside fibre_scheduler_next are C06.",
+    'level_text': "For every in-scope history the value returned by the model's fibre_scheduler_next(T) is w32(V) with V given by the property's formula on the state at return: V = T if the dispatched fibre yielded or the run queue or the accepted atomic requests are non-empty, else the earliest pending due time (proved to be a pending due time, minimal, and after T), else T + 0x7fffffff; V <= D for every pending timeout, T <= V <= T+0x7fffffff and the 32-bit value minus T reads as V - T (never_oversleeps). The interrupt clause (a request completed before the final check makes the pass return T) is theorem Librfn.C06.wakeup_with_isr; this check additionally runs the C06 engine and judges its oversleep verdict.",
     'level_note': "Trusted: Lean kernel (standard axioms only; no bv_decide); the hand model lean/Librfn/Model/Fibre.lean of fibre.c and the abstract specification are BOTH run against the real fibre.c+list.c+messageq.c+util.c on every check (sampled histories, exhaustive small scope in the thorough tier) - that correspondence is testing, not proof; cyclecmp32 is regenerated from util.c (tie T); list.c is replaced by sequences (its refinement is C09; every insertion is proved to be of a node in no list); the atomic run queue is its list of committed entries, fibre_run_atomic runs to completion (the lock-free protocol is C04/C06); scope = the property's quantifier: <= 1 unsatisfied fibre_timeout per dispatch, non-decreasing true times, every pending due time within 2^31 ticks of the pass time (the 9th outstanding atomic request is refused by model and specification alike, so no clause is needed).",
     'design_ref': '§6 C03',
 }
 REQUIRED = ['Librfn.C03.wake_formula', 'Librfn.C03.wakeup_spec', 'Librfn.C03.pending_after_return', 'Librfn.C03.never_oversleeps']
 
 
+def isr_clause(ctx):
+    """The property's interrupt clause ("any interrupt-context run request that completed before the scheduler's final
+    check"): proved as Librfn.C06.wakeup_with_isr; here the C06 engine (real fibre.c with interrupt calls placed at the
+    atomic points of fibre_scheduler_next) is run and only the monitor's `oversleeps` verdict is judged."""
+    import vlib
+    from props import C06
+    rng = vlib.Rng(ctx.seed * 7 + 3)
+    exe = C06.harness(ctx)
+    hs = [h for (name, base, calls) in C06.base_scenarios() if name in ('handler', 'lone-yielder', 'full-7', 'full-8', 'sleeper')
+          for h in C06.placements(ctx, base, calls, 1, nested=False)]
+    hs += [C06.gen_yielder(rng) for _ in range(120 if ctx.tier == 'quick' else 3000)] + [C06.gen_random(rng) for _ in range(250 if ctx.tier == 'quick' else 8000)]
+    hs = [h for h in hs if C06.valid(h)]
+    impl = C06.run_impl(exe, hs, 600)
+    ver = C06.run_spec(ctx, impl, 600)
+    n = 0
+    for i, h in enumerate(hs[:len(impl)]):
+        why = C06.judge(impl[i], ver[i] if i < len(ver) else None)
+        ctx.count(('isr', tuple(C06.lines_of(h))), nontrivial=C06.scripted_calls(h) > 0)
+        if why and ('oversleep' in why or why.startswith('crash')) and not ctx.violations:
+            def fails(c):
+                im = C06.run_impl(exe, [c], 60); vv = C06.run_spec(ctx, im, 60)
+                w = C06.judge(im[0], vv[0] if vv else None)
+                return bool(w) and ('oversleep' in w or w.startswith('crash'))
+            small = C06.shrink(fails, h)
+            ctx.violation({'obligation': 'returned wake-up time with interrupt-context requests inside fibre_scheduler_next (monitor Spec/IsrSpec.lean on the real code)',
+                           'reason': why, 'ops': C06.lines_of(small), 'engine': 'isr', 'how_to_rerun': './check C06 --replay <this file> (same line protocol)'},
+                          key='isr:' + C06.key_of(small))
+        elif not why:
+            n += 1
+    ctx.cov['interrupt_clause_histories'] = len(hs)
+    ctx.cov['interrupt_clause_histories_satisfying_monitor'] = n
+
+
 def run(ctx):
     sc.run_sched(ctx, META, ['Librfn.Props.C03'], REQUIRED, 'C03')
+    if not ctx.violations:
+        isr_clause(ctx)
 
 
 def replay(ctx, path):
